@@ -31,6 +31,12 @@ CLAIMED = {
     'C11': ('s5/C11', TECH + 'UF / node identity with fresh variables per update and POISON for uninitialised buffers; histories enumerated exhaustively to length 3',
             'After every operation sequence up to length 3 over {evaluate order 0/1/2, global evaluate, update same shape / other segment count / other coefficient count, rejected update, copy, assign over a warm object, derivative()} every evaluation and derivative trajectory of every live object is node-identical to a fresh object built from the data it must reflect; spline trajectories after update (both overloads) equal a fresh spline and earlier copies keep the old data.',
             'sequence length <= 3; shapes listed in evidence'),
+    'C15': ('s5/C15', TECH + 'parameterised user-type maps with symbolic parameters that the destructor overwrites with POISON, sources in harness-owned placement storage; UF / node identity of every observable of the copy against a fresh optimizer configured like the source at copy time',
+            'For every source configuration ({default,user} time map x {default,user} spatial map x built-in workspace yes/no), every way of copying (copy-construct, assign over an optimizer with / without workspace, self-assign) and every sequence of up to 2 later operations (source re-flagged / re-initialised / assigned from another optimizer / destroyed / evaluated; user map parameters changed; copy reset to default maps): dimension, initial guess, cost, gradient, functor arguments, exposed spline and validity flags of the copy are node-identical to a fresh optimizer; the copied built-in workspace equals the source\'s at copy time and is unaffected afterwards; spline copies / assignments are unaffected by updates of the source and vice versa.',
+            'memory errors without an effect on a scalar value are invisible (DESIGN s7)'),
+    'C19': ('s5/C19', TECH + 'polynomial user costs with symbolic coefficients and an optional symbolic gradient error; node identity of analytical / numerical against separately recorded evaluate() calls at x and x +- eps e_i; Real interpretation (cuts at the two gradient vectors) for the norms; verdict located as the recorded comparison error_norm < tol; nlsat for the verdict semantics on the smallest instances',
+            'analytical == gradient of evaluate(x); numerical[i] == (cost(x+eps e_i) - cost(x-eps e_i))/(2 eps) with the right component, step and restoration; error_norm == ||analytical - numerical||, rel_error per its formula on the branch taken, valid == (error_norm < tol), report text coherent; workspace spline afterwards == spline of evaluate(x); 3-cost / 2-cost, explicit / built-in workspace, default / explicit eps and tol, correct functors and single perturbed components. Verdict semantics on the smallest instances: exact component statements, norm inequality over a box of cost coefficients.',
+            'KNOWN FINDING (known_findings.json): correct functors with very large gradients are reported FAILED (absolute tolerance)'),
     'C16': ('s5/C16', 'symbolic execution of the real headers (recording scalar): every finiteness test / threshold comparison is a fork; paths enumerated by re-execution, feasibility and verdict==specification decided by z3 in the IEEE-754 theory (QF_FP) over all binary64 inputs incl. NaN and +-inf; concrete enumeration for size mismatches, PPolyND shapes and at() index classes',
             'On every explored path the value returned by setInitState (both overloads) equals the specification predicate for every binary64 input of that path (all paths for small configurations; all paths within 1-2 flipped decisions of the all-valid path for larger ones); isValid, operator bool, getLastError and checkValidity agree with it after every call in every initialisation sequence up to length 2 (3 thorough); size mismatches; PPolyND rejection conditions and at() on 7 index classes.',
             'int arguments by class; larger configurations by bounded flips; observation on checkValidity after the empty-time-points early return in DESIGN s8'),
